@@ -123,6 +123,9 @@ type checker struct {
 	// in the type map: the missing entry has been reported (or is don't-care)
 	// at the reference to that type; what it refers to is not owed to the map
 	outside int
+	// behindDirective > 0 while walking a type that is outside the map and
+	// was reached through a directive argument
+	behindDirective int
 }
 
 func (c *checker) add(class, where, format string, a ...interface{}) {
@@ -130,6 +133,14 @@ func (c *checker) add(class, where, format string, a ...interface{}) {
 }
 
 func (c *checker) addP(p Problem) {
+	if c.behindDirective > 0 && !p.DontCare && p.Class != "panic" {
+		// One mechanism: the types of directive arguments are neither
+		// validated nor walked when the schema is built, so whatever is wrong
+		// inside a type that only a directive argument reaches was never
+		// looked at. The original class is kept in the message.
+		p.Msg = p.Class + ": " + p.Msg
+		p.Class = "inconsistent-type-behind-directive-arg"
+	}
 	k := p.Class + "\x00" + p.Where
 	if c.seen[k] {
 		return
@@ -374,10 +385,16 @@ func (c *checker) named(pos, where string, n graphql.Type, want position) {
 		c.visited[n] = true
 		if !inMap {
 			c.outside++
+			if pos == "directive-arg-type" || c.behindDirective > 0 {
+				c.behindDirective++
+			}
 		}
 		c.walk(n, kind)
 		if !inMap {
 			c.outside--
+			if c.behindDirective > 0 {
+				c.behindDirective--
+			}
 		}
 	}
 	var err error
@@ -483,6 +500,9 @@ func (c *checker) walk(n graphql.Type, kind string) {
 		if c.broken(t) {
 			return
 		}
+		if len(ms) == 0 {
+			c.empty("members:union", name)
+		}
 		for i, m := range ms {
 			if m == nil {
 				c.add("nil-union-member", fmt.Sprintf("%s.Types()[%d]", name, i), "nil object among the union members")
@@ -493,6 +513,9 @@ func (c *checker) walk(n graphql.Type, kind string) {
 	case *graphql.Enum:
 		var vs []*graphql.EnumValueDefinition
 		c.safe(name+".Values()", func() { vs = t.Values() })
+		if len(vs) == 0 {
+			c.empty("values:enum", name)
+		}
 		seen := map[string]bool{}
 		names := []string{}
 		for i, v := range vs {
@@ -518,6 +541,9 @@ func (c *checker) walk(n graphql.Type, kind string) {
 		if c.broken(t) {
 			return
 		}
+		if len(fm) == 0 {
+			c.empty("fields:inputobject", name)
+		}
 		keys := make([]string, 0, len(fm))
 		for k := range fm {
 			keys = append(keys, k)
@@ -541,7 +567,17 @@ func (c *checker) walk(n graphql.Type, kind string) {
 	}
 }
 
+// empty: a type with no fields / members / values at all. The property's
+// post-condition has no clause about it (only its quantifier mentions empty
+// sets as inputs), so it is counted, not judged.
+func (c *checker) empty(what, owner string) {
+	c.addP(Problem{Class: "empty-" + what, Where: owner, Msg: "accepted with an empty set", DontCare: true})
+}
+
 func (c *checker) fields(owner string, fm graphql.FieldDefinitionMap) {
+	if len(fm) == 0 {
+		c.empty("fields:object-or-interface", owner)
+	}
 	keys := make([]string, 0, len(fm))
 	for k := range fm {
 		keys = append(keys, k)
@@ -963,6 +999,27 @@ func Describe(schema graphql.Schema) (desc string, panicked *Problem) {
 		if s.Type(k) != t {
 			fmt.Fprintf(&b, "  lookup-differs\n")
 		}
+		if IsNil(t) {
+			continue
+		}
+		// evaluate the lazy parts first; a type that then carries an error
+		// is described as broken and nothing else (what its accessors return
+		// is partial and depends on map iteration inside the library)
+		switch tt := t.(type) {
+		case *graphql.Object:
+			tt.Interfaces()
+			tt.Fields()
+		case *graphql.Interface:
+			tt.Fields()
+		case *graphql.Union:
+			tt.Types()
+		case *graphql.InputObject:
+			tt.Fields()
+		}
+		if t.Error() != nil {
+			fmt.Fprintf(&b, "  error parked\n")
+			continue
+		}
 		switch tt := t.(type) {
 		case *graphql.Object:
 			if tt == nil {
@@ -1031,9 +1088,6 @@ func Describe(schema graphql.Schema) (desc string, panicked *Problem) {
 				}
 				fmt.Fprintf(&b, "  input %s: %s\n", k, TypeString(fm[k].Type))
 			}
-		}
-		if err := t.Error(); err != nil {
-			fmt.Fprintf(&b, "  error %v\n", err)
 		}
 	}
 	var ds []string
